@@ -7,6 +7,12 @@ then every k-th), for every world whose state is still finite and bounded,
 Runs: all four integrators, timesteps 1e-4..0.05, |omega| up to 1e3 rad/s, unnormalised (scale e^-2.3..e^2.3), tiny
 (1e-6..1e-18) and float32-underflowing (1e-30) initial quaternions incl. mocap quaternions, horizons 200 (quick) to
 20000 (thorough) steps.
+'still' family (degenerate motion): gravity off, no springs / actuators / applied forces / contacts, and angular velocities
+that are exactly zero, float32 denormals, below mjMINVAL=1e-15 or merely slow (1e-14..1), with free, ball and mocap
+quaternions that are scaled (e^+-2.3), nearly unit (1 +- 1e-2..2e-4), tiny (1e-6..1e-18), huge (1e3..9e9, the largest
+qpos MuJoCo accepts) or underflowing (1e-30, exactly 0); fresh non-unit states are written into the same Data every 3
+steps (set_world_states), so every round integrates a non-unit quaternion with a degenerate velocity; every world is
+judged after every step (there is no motion that could excuse a divergence).
 """
 
 import mujoco
@@ -22,7 +28,12 @@ RULE = (
   "per body, mocap bodies, sites, cameras in all tracking modes, springs/dampers/actuators, no contacts) or free bodies "
   "bouncing on a plane; 4 worlds = {unit quats & |omega|~3, unnormalised & |omega|~30, tiny quats & |omega|~300, "
   "unnormalised & |omega| up to 1e3}; plus an 'underflow' class (|q|=1e-30). Non-trivial: >=1 free or ball joint and >=50 "
-  "judged steps; distinct by hash(xml, integrator, timestep, states)."
+  "judged steps; distinct by hash(xml, integrator, timestep, states). "
+  "case kind 'still'=(seed,integrator,timestep,rounds x steps): generated tree (free/ball/hinge/slide, mocap, sites, cameras; "
+  "no springs/actuators/tendons, gravity 0, contacts off) with 7 worlds = angular-velocity class {exactly 0, linear only, "
+  "float32 denormal, <1e-15, slow 1e-14..1, drawn per joint} x per-joint quaternion class {scaled, nearly unit, tiny, huge}, "
+  "plus a |q|^2-underflowing world; new states every round. Non-trivial: >=10 measured (world, joint, step) triples "
+  "whose input quaternion was non-unit and whose angular velocity before and after the step was <1e-15."
 )
 ASSUMPTIONS = [
   "a world is judged only while its qvel is finite and below 1e6 and its qpos finite-or-not is attributable: once qvel "
@@ -32,6 +43,11 @@ ASSUMPTIONS = [
   "tolerances 1e-5 on quaternion norms and 1e-4 on R^T R - I are 100x / 1000x float32 epsilon",
   "a quaternion whose squared norm underflows float32 (|q|<=1e-23) cannot be normalised in float32; it is exercised and "
   "reported under its own signature prefix 'underflow:' (MuJoCo float64 replaces |q|<1e-15 by the identity)",
+  "quaternion components stay below mjMAXVAL=1e10: MuJoCo's mj_checkPos declares a state with a larger |qpos| invalid "
+  "(warning BADQPOS, automatic reset), so such states are outside the accepted domain and are not generated (measured: "
+  "MJWarp returns a zero xquat / NaN qvel once |q|^2 exceeds FLT_MAX, |q|>=1.9e19)",
+  "'still' family: stillness is measured, not assumed: a (world, joint, step) counts as degenerate only if the joint's "
+  "angular velocity read back before and after the step is below 1e-15",
 ]
 BUDGET = {"quick": 240, "thorough": 1500}
 
@@ -59,6 +75,20 @@ P_ROT = gen.profile(
   act_ball=False,
   p_massless=0.1,
 )
+# nothing that could set a still body in motion: no springs, actuators or tendons (gravity is switched off after compile)
+P_STILL = gen.profile(
+  nbody=(1, 6),
+  p_free=0.6,
+  p_ball=0.5,
+  p_multi=0.3,
+  p_mocap=0.3,
+  p_camlight=0.5,
+  p_site=0.8,
+  p_spring=0.0,
+  p_damping=0.4,
+  p_armature=0.3,
+  p_massless=0.1,
+)
 P_BOUNCE = gen.profile(
   nbody=(1, 4),
   p_free=1.0,
@@ -83,7 +113,23 @@ def cases(tier, seed):
     else:
       horizon = (2000, 500, 500, 20000, 500, 2000, 500, 500)[(i * 3 + i // 8 + i // 40) % 8]  # mixes with integrator / timestep
     out.append({"id": f"{kind}{seed}_{i}", "kind": kind, "seed": seed * 100000 + i, "integrator": integ, "timestep": ts, "horizon": horizon, "underflow": int(i % 4 == 1), "weight": max(1, horizon // 200) * (2 if integ == "RK4" else 1)})
-  return out
+  # 'still' family: non-rotating bodies with non-unit quaternions, re-injected every round
+  ns = 16 if tier == "quick" else 64
+  still = []
+  for i in range(ns):
+    integ = INTEGRATORS[i % 4]
+    ts = TIMESTEPS[(i // 4 + i) % 5]
+    rounds, steps = (6, 3) if tier == "quick" else (20, 3)
+    tail = 0 if tier == "quick" else (300 if i % 4 == i // 4 % 4 else 0)
+    still.append({"id": f"still{seed}_{i}", "kind": "still", "seed": seed * 100000 + 50000 + i, "integrator": integ, "timestep": ts, "rounds": rounds, "steps": steps, "tail": tail, "nocontact": int(i % 3 == 0), "weight": 1})
+  # interleave so that a budget that expires early does not drop one family entirely
+  merged = []
+  for i in range(max(len(out), len(still))):
+    if i < len(still):
+      merged.append(still[i])
+    if i < len(out):
+      merged.append(out[i])
+  return merged
 
 
 def has_rot(mjm):
@@ -140,9 +186,274 @@ def rot_defect(R):
   return float(e), float(np.linalg.det(R).min())
 
 
+# ----------------------------------------------------------------------------------- 'still' family (degenerate motion)
+#
+# Bodies that do not rotate: the angular velocity used for the position update is exactly zero, a float32 denormal, below
+# mjMINVAL (1e-15), or merely small, while the quaternion that is integrated is not unit (scaled, nearly unit, tiny, huge).
+# Nothing may be skipped on that path: qpos must still come back normalised.  Gravity is off, there are no springs,
+# actuators, applied forces or contacts, so a body that starts still stays still; stillness is nevertheless MEASURED per
+# (world, joint, step) from qvel before and after the step and only measured observations feed the coverage counters.
+
+FLT_MIN = 1.1754944e-38  # smallest normal float32
+MINVAL = 1e-15  # mjMINVAL
+W_BUCKETS = ("zero", "denormal", "lt_minval", "lt_1e-6", "lt_1e-3")  # 'degenerate' = the first three
+Q_CLASSES = ("unnormalised", "near_unit", "tiny", "huge")
+
+# (angular-velocity class, quaternion class) of the worlds of a 'still' case
+STILL_WORLDS = (
+  ("zero", "mix"),
+  ("lin", "mix"),
+  ("denormal", "mix"),
+  ("lt_minval", "mix"),
+  ("slow", "mix"),
+  ("zero", "underflow"),
+  ("per_joint", "mix"),  # every joint draws its own angular-velocity class: still and moving joints side by side
+)
+
+
+def _unit(rng, n):
+  v = rng.normal(size=n)
+  return v / np.linalg.norm(v)
+
+
+def _mix_scale(rng):
+  """(class, scale) of one non-unit quaternion that float32 can still normalise."""
+  c = Q_CLASSES[int(rng.integers(len(Q_CLASSES)))]
+  if c == "unnormalised":
+    s = float(np.exp(rng.uniform(-2.3, 2.3)))
+    if abs(s - 1) < 1e-2:
+      s = 1.5
+  elif c == "near_unit":
+    s = 1.0 + float(rng.choice([-1.0, 1.0])) * 10.0 ** float(rng.choice([-2, -3, -3.7]))
+  elif c == "tiny":
+    s = 10.0 ** float(rng.choice([-6, -12, -18]))
+  else:
+    s = float(rng.choice([1e3, 1e6, 9e9]))  # components stay below mjMAXVAL = 1e10
+  return c, s
+
+
+def _class_scale(rng, qclass):
+  if qclass == "underflow":
+    return "underflow", float(rng.choice([1e-30, 1e-30, 0.0]))  # exact zero too
+  return _mix_scale(rng)
+
+
+def _omega_mag(rng, wclass):
+  if wclass == "per_joint":
+    wclass = ("zero", "denormal", "lt_minval", "slow", "fast")[int(rng.integers(5))]
+  if wclass == "fast":
+    return float(rng.uniform(1.0, 30.0))
+  if wclass in ("zero", "lin"):
+    return 0.0
+  if wclass == "denormal":
+    return 10.0 ** -float(rng.uniform(38.3, 44.0))
+  if wclass == "lt_minval":
+    return 10.0 ** -float(rng.uniform(15.3, 37.0))
+  return 10.0 ** -float(rng.uniform(0.0, 14.7))  # slow
+
+
+def make_still_states(mjm, rng):
+  """One state per STILL_WORLDS entry; returns (states, per-world list of quaternion classes per slot)."""
+  qs, _ = _step.quat_slots(mjm)
+  states, qcls = [], []
+  for wclass, qclass in STILL_WORLDS:
+    st = gen.sample_state(mjm, rng, vel=0.0, quat_scale=False, applied=False)
+    qp = st["qpos"].astype(np.float64)
+    qv = np.zeros(mjm.nv)
+    cls = []
+    for a in qs:
+      c, s = _class_scale(rng, qclass)
+      qp[a : a + 4] = _unit(rng, 4) * s
+      cls.append(c)
+    for j in range(mjm.njnt):
+      a = int(mjm.jnt_dofadr[j])
+      t = mjm.jnt_type[j]
+      if t == mujoco.mjtJoint.mjJNT_FREE:
+        if wclass == "lin":
+          qv[a : a + 3] = rng.normal(size=3) * 0.5
+        else:
+          qv[a : a + 3] = _unit(rng, 3) * _omega_mag(rng, wclass)
+        qv[a + 3 : a + 6] = _unit(rng, 3) * _omega_mag(rng, wclass)
+      elif t == mujoco.mjtJoint.mjJNT_BALL:
+        qv[a : a + 3] = _unit(rng, 3) * _omega_mag(rng, wclass)
+      else:
+        qv[a] = float(rng.choice([-1.0, 1.0])) * _omega_mag(rng, wclass)
+    with np.errstate(all="ignore"):
+      st["qpos"] = qp.astype(np.float32)
+      st["qvel"] = qv.astype(np.float32)
+      mq = np.zeros((mjm.nmocap, 4))
+      for i in range(mjm.nmocap):
+        _, s = _class_scale(rng, qclass)
+        mq[i] = _unit(rng, 4) * s
+      st["mocap_quat"] = mq.astype(np.float32)
+    st["ctrl"] = np.zeros(mjm.nu, np.float32)
+    st["qacc_warmstart"] = np.zeros(mjm.nv, np.float32)
+    states.append(st)
+    qcls.append(cls)
+  return states, qcls
+
+
+def w_bucket(w0, w1):
+  w = max(w0, w1)
+  if not np.isfinite(w):
+    return "nonfinite"
+  if w == 0.0:
+    return "zero"
+  if w < FLT_MIN:
+    return "denormal"
+  if w < MINVAL:
+    return "lt_minval"
+  if w < 1e-6:
+    return "lt_1e-6"
+  if w < 1e-3:
+    return "lt_1e-3"
+  return "moving"
+
+
+def judge_world(rec, case, k, w, cls, pre, qpos_w, xquat_w, M_w, qs, mats, worst, reported, extra=""):
+  """The invariants of one world after step k+1; `pre` is the signature prefix of the world's class."""
+  track = not pre
+
+  def sig(base):
+    return pre + base
+
+  where = f"world {w}, class {cls}{extra}, {case['integrator']}, h={case['timestep']}"
+  # qpos quaternions
+  rec.check()
+  qn = np.array([np.linalg.norm(qpos_w[a : a + 4].astype(np.float64)) for a in qs])
+  e = float(np.abs(qn - 1).max()) if np.all(np.isfinite(qn)) else float("inf")
+  if track:
+    worst["qpos_quat_norm"] = max(worst.get("qpos_quat_norm", 0), e / QTOL)
+  if e > QTOL and (pre + "qpos") not in reported:
+    reported.add(pre + "qpos")
+    rec.viol(sig("qpos_quat_not_unit"), f"free/ball quaternion norm deviates by {e:.3g} after step {k + 1} ({where})", step=k + 1, norms=qn[:6])
+  # xquat
+  rec.check()
+  xn = np.linalg.norm(xquat_w.astype(np.float64), axis=-1)[1:]
+  e = float(np.abs(xn - 1).max(initial=0)) if np.all(np.isfinite(xn)) else float("inf")
+  if track:
+    worst["xquat_norm"] = max(worst.get("xquat_norm", 0), e / QTOL)
+  if e > QTOL and (pre + "xquat") not in reported:
+    reported.add(pre + "xquat")
+    rec.viol(sig("xquat_not_unit"), f"xquat norm deviates by {e:.3g} at step {k + 1} ({where})", step=k + 1)
+  for name in mats:
+    rec.check()
+    arr = M_w[name]
+    if name == "xmat" or name == "ximat":
+      arr = arr[1:]
+    e, det = rot_defect(arr)
+    if track:
+      worst[name] = max(worst.get(name, 0), e / RTOL)
+    if (e > RTOL or det <= 0) and (pre + name) not in reported:
+      reported.add(pre + name)
+      rec.viol(sig(f"{name}_not_rotation"), f"{name}: max|R^T R - I|={e:.3g}, min det={det:.3g} at step {k + 1} ({where})", step=k + 1)
+
+
+def run_still(case):
+  import mujoco_warp as mjw
+
+  rec = core.Rec(case)
+  rng = np.random.default_rng(case["seed"])
+  xml, mjm, feat, _ = gen.make_model(case["seed"], P_STILL, accept=lambda mm: has_rot(mm) and _step.well_conditioned(mm))
+  if mjm is None:
+    rec.rejected = "no model with free/ball joints"
+    return rec.result()
+  integ = case["integrator"]
+  mjm.opt.integrator = INT_ENUM[integ]
+  mjm.opt.timestep = case["timestep"]
+  mjm.opt.gravity[:] = 0.0
+  mjm.opt.wind[:] = 0.0
+  mjm.jnt_stiffness[:] = 0.0
+  if case.get("nocontact"):
+    mjm.opt.disableflags |= int(mujoco.mjtDisableBit.mjDSBL_CONTACT)
+  try:
+    m = mw.put_model(mjm)
+  except (NotImplementedError, ValueError) as e:
+    rec.rejected = f"put_model: {e}"[:200]
+    return rec.result()
+  qs, _ = _step.quat_slots(mjm)
+  # (qpos address of the quaternion, address of its 3 angular dofs, joint type) per slot, same order as quat_slots
+  slots = []
+  for j in range(mjm.njnt):
+    t = mjm.jnt_type[j]
+    if t == mujoco.mjtJoint.mjJNT_FREE:
+      slots.append((int(mjm.jnt_qposadr[j]) + 3, int(mjm.jnt_dofadr[j]) + 3, "free"))
+    elif t == mujoco.mjtJoint.mjJNT_BALL:
+      slots.append((int(mjm.jnt_qposadr[j]), int(mjm.jnt_dofadr[j]), "ball"))
+  assert [s[0] for s in slots] == list(qs)
+  nworld = len(STILL_WORLDS)
+  worst, reported = {}, set()
+  judged = 0
+  deg_nonunit = 0
+  d = None
+  mats = []
+  plan = [case["steps"]] * case["rounds"] + ([case["tail"]] if case.get("tail") else [])
+  stride = 25
+  for r, nstep in enumerate(plan):
+    states, qcls = make_still_states(mjm, rng)
+    if d is None:
+      d = mw.make_data(mjm, m, states)
+      mats = [k for k in ("xmat", "ximat", "geom_xmat", "site_xmat", "cam_xmat") if getattr(d, k).shape[1] > 0]
+    else:
+      mw.set_world_states(m, d, states)
+    qpos_in = np.array(mw.npy(d.qpos))
+    qvel_in = np.array(mw.npy(d.qvel))
+    mocap_in = np.array(mw.npy(d.mocap_quat)).reshape(nworld, -1, 4)
+    for w in range(nworld):
+      if STILL_WORLDS[w][1] == "mix" and mocap_in.shape[1]:
+        mn = np.linalg.norm(mocap_in[w].astype(np.float64), axis=-1)
+        rec.cover("still:mocap_quat_nonunit_in", int((np.abs(mn - 1) > 1e-4).sum()))
+    for k in range(nstep):
+      mjw.step(m, d)
+      qpos = np.array(mw.npy(d.qpos))
+      qvel = np.array(mw.npy(d.qvel))
+      observe = k < 5 or (k + 1) % stride == 0 or k == nstep - 1
+      # measured stillness per (world, quaternion slot) of this step; inputs are qpos_in / qvel_in
+      for w in range(nworld):
+        wclass, qclass = STILL_WORLDS[w]
+        for i, (qa, da, jt) in enumerate(slots):
+          n_in = float(np.linalg.norm(qpos_in[w][qa : qa + 4].astype(np.float64)))
+          nonunit = (not np.isfinite(n_in)) or abs(n_in - 1) > 1e-4
+          if not nonunit:
+            continue
+          w_in = float(np.linalg.norm(qvel_in[w][da : da + 3].astype(np.float64)))
+          if qclass != "mix":
+            rec.cover(f"still:{qclass}:{w_bucket(w_in, w_in)}", 1)  # the step itself may produce NaN velocities here
+            continue
+          b = w_bucket(w_in, float(np.linalg.norm(qvel[w][da : da + 3].astype(np.float64))))
+          rec.cover(f"still:{jt}:{b}:nonunit_in", 1)
+          if b in W_BUCKETS[:3]:
+            deg_nonunit += 1
+            rec.cover(f"still:{integ}:degenerate_nonunit_in", 1)
+            rec.cover(f"still:qclass:{qcls[w][i]}:degenerate", 1)
+      if observe:
+        xquat = mw.npy(d.xquat)
+        M = {name: mw.npy(getattr(d, name)) for name in mats}
+        for w in range(nworld):
+          wclass, qclass = STILL_WORLDS[w]
+          pre = "" if qclass == "mix" else qclass + ":"
+          judged += 1
+          rec.cover("still:judged_world_steps:" + ("mix" if qclass == "mix" else qclass), 1)
+          judge_world(rec, case, k, w, "still/" + qclass, pre, qpos[w], xquat[w], {name: M[name][w] for name in mats}, qs, mats, worst, reported, extra=f", omega class {wclass}, round {r}")
+      qpos_in, qvel_in = qpos, qvel
+  for name, rr in worst.items():
+    rec.worst(name, rr)
+  rec.cover("still:judged_world_steps", judged)
+  rec.cover("still:judged_world_steps:" + integ, judged)
+  for f in feat:
+    if f.startswith(("joint:", "mocap")):
+      rec.cover("still:features", f)
+  if deg_nonunit >= 10:
+    rec.nontrivial(xml, integ, case["timestep"], "still", case["seed"])
+  rec.sample = {"kind": "still", "integrator": integ, "timestep": case["timestep"], "rounds": plan, "nv": mjm.nv, "nq": mjm.nq, "n_quat": len(qs), "worlds": [list(x) for x in STILL_WORLDS], "degenerate_nonunit_joint_steps": deg_nonunit}
+  return rec.result()
+
+
 def run_case(case):
   import mujoco_warp as mjw
 
+  if case["kind"] == "still":
+    return run_still(case)
   rec = core.Rec(case)
   rng = np.random.default_rng(case["seed"])
   P = P_ROT if case["kind"] == "rot" else P_BOUNCE
@@ -189,34 +500,7 @@ def run_case(case):
         continue
       pre = "underflow:" if classes[w] == "underflow" else ""
       judged[w] += 1
-      # qpos quaternions
-      rec.check()
-      qn = np.array([np.linalg.norm(qpos[w][a : a + 4].astype(np.float64)) for a in qs])
-      e = float(np.abs(qn - 1).max()) if np.all(np.isfinite(qn)) else float("inf")
-      worst["qpos_quat_norm"] = max(worst.get("qpos_quat_norm", 0), e / QTOL) if not pre else worst.get("qpos_quat_norm", 0)
-      if e > QTOL and (pre + "qpos") not in reported:
-        reported.add(pre + "qpos")
-        rec.viol(pre + "qpos_quat_not_unit", f"free/ball quaternion norm deviates by {e:.3g} after step {k + 1} (world {w}, class {classes[w]}, {case['integrator']}, h={case['timestep']})", step=k + 1, norms=qn[:6], qvel=v[:6])
-      # xquat
-      rec.check()
-      xn = np.linalg.norm(xquat[w].astype(np.float64), axis=-1)[1:]
-      e = float(np.abs(xn - 1).max(initial=0)) if np.all(np.isfinite(xn)) else float("inf")
-      if not pre:
-        worst["xquat_norm"] = max(worst.get("xquat_norm", 0), e / QTOL)
-      if e > QTOL and (pre + "xquat") not in reported:
-        reported.add(pre + "xquat")
-        rec.viol(pre + "xquat_not_unit", f"xquat norm deviates by {e:.3g} at step {k + 1} (world {w}, class {classes[w]})", step=k + 1)
-      for name in mats:
-        rec.check()
-        arr = M[name][w]
-        if name == "xmat" or name == "ximat":
-          arr = arr[1:]
-        e, det = rot_defect(arr)
-        if not pre:
-          worst[name] = max(worst.get(name, 0), e / RTOL)
-        if (e > RTOL or det <= 0) and (pre + name) not in reported:
-          reported.add(pre + name)
-          rec.viol(pre + f"{name}_not_rotation", f"{name}: max|R^T R - I|={e:.3g}, min det={det:.3g} at step {k + 1} (world {w}, class {classes[w]}, {case['integrator']}, h={case['timestep']})", step=k + 1)
+      judge_world(rec, case, k, w, classes[w], pre, qpos[w], xquat[w], {name: M[name][w] for name in mats}, qs, mats, worst, reported)
     if not alive.any():
       break
   for name, r in worst.items():
@@ -265,6 +549,25 @@ def requirements(agg, tier):
   need = "horizon>=200" if tier == "quick" else "horizon>=20000"
   if not cov.get(need):
     unmet.append(f"no run survived the full horizon ({need})")
+  # 'still' family: every degenerate-velocity bucket, joint type, integrator and quaternion class must have been observed
+  # with a non-unit input quaternion (measured per world, joint and step)
+  for integ in INTEGRATORS:
+    if cov.get(f"still:{integ}:degenerate_nonunit_in", 0) < 20:
+      unmet.append(f"still family: fewer than 20 non-unit quaternions integrated with |omega|<1e-15 under {integ}")
+  for jt in ("free", "ball"):
+    for b in W_BUCKETS:
+      if cov.get(f"still:{jt}:{b}:nonunit_in", 0) < 5:
+        unmet.append(f"still family: fewer than 5 non-unit {jt} quaternions integrated with angular velocity class {b}")
+  for c in Q_CLASSES:
+    if cov.get(f"still:qclass:{c}:degenerate", 0) < 10:
+      unmet.append(f"still family: fewer than 10 {c} quaternions integrated with |omega|<1e-15")
+  for c in ("mix", "underflow"):
+    if cov.get("still:judged_world_steps:" + c, 0) < 30:
+      unmet.append(f"still family: fewer than 30 judged world-steps of quaternion class {c}")
+  if cov.get("still:underflow:zero", 0) < 10:
+    unmet.append("still family: fewer than 10 underflowing quaternions integrated with exactly zero angular velocity")
+  if cov.get("still:mocap_quat_nonunit_in", 0) < 5:
+    unmet.append("still family: fewer than 5 non-unit mocap quaternions")
   if agg["distinct"] < 20:
     unmet.append("fewer than 20 distinct non-trivial cases")
   return unmet
